@@ -98,7 +98,8 @@ CLAIMS = {
                 "radicand minus R^2); the five closed forms of the statement modulo algebra; homogeneity degrees; "
                 "agreement of the duplicated tau mass / lifetime constants with each other and with the reference "
                 "values; in compute() the emergence angle, speed and Lorentz factor the tau and decay stages work on are the "
-                "stored columns of the same events, unmodified between the stages. It does NOT decide the exponential "
+                "stored columns of the same events, unmodified between the stages; the decay stage modifies none of its "
+                "arguments. It does NOT decide the exponential "
                 "distribution or monotonicity (values).",
         "technique": "value-flow graph + unit inference, interval analysis, polynomial normal form against reference formulas",
     },
@@ -149,7 +150,8 @@ CLAIMS = {
                 "the input event population with no position-dependent index, no batch-wide reduction feeding a "
                 "column and no mixing of populations (two allow-listed constructs with stated reasons); samplers return "
                 "the iterator's output operand; an events-by-k array is never combined directly with a one-dimensional per-event "
-                "value (axis alignment). Bit-for-bit equality relies on numpy's elementwise determinism "
+                "value (axis alignment); no decision on one position of a per-event array or on a batch being exactly one "
+                "event. Bit-for-bit equality relies on numpy's elementwise determinism "
                 "(trusted).",
         "technique": "effect / alias analysis relative to each entry, two-call history analysis, length-class "
                      "(equivariance) typing",
